@@ -34,6 +34,7 @@ import (
 	chproto "github.com/ClickHouse/ch-go/proto"
 	"github.com/ClickHouse/clickhouse-go/v2/lib/driver"
 	"github.com/golang/snappy"
+	pprofile "github.com/google/pprof/profile"
 	"github.com/gorilla/mux"
 	clconfig "github.com/metrico/cloki-config"
 	cfgbase "github.com/metrico/cloki-config/config"
@@ -60,7 +61,7 @@ import (
 
 // Client: one HTTP request described by its shape.
 //
-//	kind   prom | lokiproto | lokijson | ddmetrics
+//	kind   prom | lokiproto | lokijson | ddmetrics | pprof (a pprof profile on /ingest: rows of the profile insert service; shape unused)
 //	shape  run-length list [[k, n], ..]: k series / streams with n samples / entries / points each, in this order
 //	bad    "" (well-formed) | "snappy" (corrupt block) | "cut" (wire message cut in the middle) | "ts" (Loki JSON: unparsable timestamp
 //	       in the last entry)
@@ -227,7 +228,7 @@ func setup() *mux.Router {
 	mtr := mk(impl.NewMetricsInsertService, nil)
 	tsp := mk(impl.NewTempoSamplesInsertService, nil)
 	ttg := mk(impl.NewTempoTagsInsertService, nil)
-	prf := mk(impl.NewProfileSamplesInsertService, nil)
+	prf := mk(impl.NewProfileSamplesInsertService, &splRequests) // a profile pair shares the profile batch: counted like samples requests
 	controllerv1.Registry = registry.NewStaticServiceRegistry(ts, spl, mtr, tsp, ttg, prf)
 	controllerv1.FPCache = numbercache.NewCache[uint64](time.Minute*30, func(val uint64) []byte {
 		return unsafe.Slice((*byte)(unsafe.Pointer(&val)), 8)
@@ -236,6 +237,7 @@ func setup() *mux.Router {
 	cfg := controllerv1.NewMiddlewareConfig(controllerv1.WithExtraMiddlewareDefault...)
 	apirouterv1.RouteInsertDataApis(r, cfg)
 	apirouterv1.RoutePromDataApis(r, cfg)
+	apirouterv1.RouteProfileDataApis(r, cfg)
 	apirouterv1.RouteMiscApis(r, cfg)
 	return r
 }
@@ -255,6 +257,29 @@ type wire struct {
 	body     []byte
 }
 
+func validPprof(v int64) []byte {
+	fn := &pprofile.Function{ID: 1, Name: "main.work", SystemName: "main.work", Filename: "main.go"}
+	fn2 := &pprofile.Function{ID: 2, Name: "main.main", SystemName: "main.main", Filename: "main.go"}
+	l1 := &pprofile.Location{ID: 1, Line: []pprofile.Line{{Function: fn, Line: 10}}}
+	l2 := &pprofile.Location{ID: 2, Line: []pprofile.Line{{Function: fn2, Line: 20}}}
+	p := &pprofile.Profile{
+		SampleType: []*pprofile.ValueType{{Type: "samples", Unit: "count"}, {Type: "cpu", Unit: "nanoseconds"}},
+		PeriodType: &pprofile.ValueType{Type: "cpu", Unit: "nanoseconds"},
+		Period:     10000000,
+		Sample: []*pprofile.Sample{
+			{Location: []*pprofile.Location{l1, l2}, Value: []int64{1 + v%9, 10000000 * (1 + v%9)}},
+			{Location: []*pprofile.Location{l2}, Value: []int64{1, 10000000}},
+		},
+		Location: []*pprofile.Location{l1, l2},
+		Function: []*pprofile.Function{fn, fn2},
+	}
+	var b bytes.Buffer
+	if err := p.Write(&b); err != nil {
+		panic(err)
+	}
+	return b.Bytes()
+}
+
 func cut(b []byte) []byte {
 	if len(b) < 4 {
 		return []byte{0x0a}
@@ -266,6 +291,12 @@ func cut(b []byte) []byte {
 // (the announcement cache of the writer is keyed by the label set: every case announces its own series)
 func build(c Client, who string, id int) wire {
 	switch c.Kind {
+	case "pprof":
+		body := validPprof(int64(id))
+		if c.Bad == "cut" {
+			body = cut(body)
+		}
+		return wire{fmt.Sprintf("/ingest?from=%d&until=%d&name=shared_%s_c%d", baseSec, baseSec+10, who, id), "binary/octet-stream", body}
 	case "prom":
 		wr := &prompb.WriteRequest{}
 		si := 0
@@ -533,6 +564,19 @@ func genShape(r *rand.Rand, kind string) ([][2]int, string) {
 
 func gen(r *rand.Rand, id int) Case {
 	c := Case{ID: id}
+	if r.Intn(9) == 0 {
+		// two profile pushes in one batch of the profile insert service
+		c.A = Client{Kind: "pprof", Shape: [][2]int{{1, 1}}}
+		c.B = Client{Kind: "pprof", Shape: [][2]int{{1, 1}}}
+		cls := "one-profile"
+		if r.Intn(3) == 0 {
+			c.B.Bad = "cut"
+			cls += "/bad-cut"
+		}
+		c.Order = []string{"a-first", "b-first", "concurrent"}[r.Intn(3)]
+		c.Class = "pprof/" + cls + "/" + c.Order
+		return c
+	}
 	c.A = Client{Kind: "lokijson", Shape: [][2]int{{1, 1 + r.Intn(3)}}}
 	if r.Intn(4) == 0 {
 		c.A = Client{Kind: "prom", Shape: [][2]int{{1 + r.Intn(3), 1}}}
